@@ -20,7 +20,7 @@ RULE = ('mode A: small concurrent programs (2-4 clients x 2-5 calls over 1-3 key
         'evaluations = histories checked; distinct_nontrivial = distinct schedule traces that contained at least one '
         'preemption inside an operation (mode A) plus free runs with overlapping operation pairs (mode B)')
 DISTINCT = ('schedules_with_preemption_in_op', 'free_runs_with_overlap')
-REQUIRED = ('histories_checked', 'schedules_shared_object', 'schedules_separate_objects', 'lock_waits_observed',
+REQUIRED = ('calls_joining_an_enclosing_transaction', 'schedules_with_rollbacks_of_waiting_calls', 'histories_checked', 'schedules_shared_object', 'schedules_separate_objects', 'lock_waits_observed',
             'file_backed_values', 'free_runs_threads', 'free_runs_processes', 'lru_stat_schedules', 'expired_present_keys',
             'handles_opened_during_schedules', 'partly_consumed_iterations', 'timeouts_under_commit_contention')
 ASSUMPTIONS = ('threads are interleaved at SQL-statement and value-file-operation granularity (where diskcache\'s '
@@ -278,6 +278,10 @@ def mode_a(dc, sc, res, rng, tier, label, variant):
     caches = [setup if shared else None if late else dc.Cache(d, timeout=0) for _ in range(nclients)]
     reopen_at = [rng.randrange(0, len(prog[ci]) + 1) if late and rng.random() < 0.5 else -1 for ci in range(nclients)]
     opened = []
+    p_enclosed = 0.5 if variant == 'rollbacks' else 0.1
+    enclosed = {(ci, j) for ci, ops in enumerate(prog) for j, o in enumerate(ops)
+                if o[0] not in ('iter', 'iter_open', 'iter_rest', 'len') and rng.random() < p_enclosed}
+    res.count('calls_joining_an_enclosing_transaction', len(enclosed))
     strategy = rng.choice(['random', 'random', 'preempt', 'preempt', 'roundrobin', 'ops', 'ops'])
     pts = {rng.randrange(0, 120) for _ in range(rng.randrange(1, 4))}
     sch = Sched(rng, clock, strategy=strategy, preempt_points=pts)
@@ -293,7 +297,15 @@ def mode_a(dc, sc, res, rng, tier, label, variant):
                 if j == reopen_at[ci]:
                     cache = dc.Cache(d, timeout=0)
                     opened.append(cache)
-                rec.call(ci, op, args, lambda: do_op(cache, op, args, kw), kw)
+                if (ci, j) in enclosed:
+                    # the same individual call, made inside an enclosing transaction of its thread (it joins that
+                    # transaction instead of locking again): to everybody else still one atomic operation
+                    def inside(cache=cache, op=op, args=args, kw=kw):
+                        with cache.transact(retry=True):
+                            return do_op(cache, op, args, kw)
+                    rec.call(ci, op, args, inside, kw)
+                else:
+                    rec.call(ci, op, args, lambda: do_op(cache, op, args, kw), kw)
         return run
 
     try:
